@@ -243,6 +243,29 @@ Theorem out_splice_and_silence : forall dc out bus output st r st',
     st' = st ++ repeat (dc_unit dc) n ++ outs /\
     length outs = count_calls (bus :: chans) /\ Forall (flat_vector out) outs.
 Proof. exact out_ar_full. Qed.
+(* Constructors that convert their signal input to audio rate before the expansion (the .ar
+   constructors of the delay-line family: ugen_param(input)._as_audio_rate_input()).  The
+   conversion of a list (or tuple) is the conversion of EVERY element, in order, independently
+   of the other elements -- an audio-rate element is kept, a control/scalar-rate unit gets a K2A,
+   a number a DC (0: silence) -- and the converted list then goes through the generic expansion,
+   so channel i is built from the conversion of element i, as in the single-channel call. *)
+Theorem audio_input_conversion_elementwise : forall dc k2a l st,
+  as_audio dc k2a (Lst l) st = bind (mapM (as_audio dc k2a) l) (fun l' => ret (Lst l')) st /\
+  as_audio dc k2a (Tuple l) st = bind (mapM (as_audio dc k2a) l) (fun l' => ret (Tuple l')) st.
+Proof. exact as_audio_elementwise. Qed.
+Theorem audio_input_conversion_of_a_unit : forall dc k2a u c st,
+  as_audio dc k2a (Scalar (U u c)) st =
+  match unit_rate st u with
+  | RAudio => Ok (Scalar (U u c)) st
+  | _ => Ok (Scalar (U (length st) 0)) (st ++ [mkUnit k2a [Scalar (U u c)]])
+  end.
+Proof. exact as_audio_unit. Qed.
+Theorem audio_input_constructor_law : forall dc k2a cls before l after st,
+  audio_in_ctor dc k2a cls before (Lst l) after st =
+  bind (mapM (as_audio dc k2a) l)
+       (fun l' => multi_new (new1_plain cls 1) (before ++ Lst l' :: after)) st.
+Proof. exact audio_in_ctor_lst. Qed.
+
 (* ALL output-unit constructors.  Out / ReplaceOut / OffsetOut (.ar, .kr), XOut (.ar, .kr) and
    LocalOut (.ar, .kr) differ only in the arguments that precede the channel array ([fixed]:
    bus | bus, xfade | nothing).  Audio rate: the complete statement above with (fixed ++ channels)
@@ -365,6 +388,15 @@ Example madd_law_example :
     ORes (Lst [u 2; u 3; u 4])
          (pre ++ [mkUnit (ar 7) [u 0; k 2; k 5]; mkUnit (kr 7) [u 1; k 3; k 5]; mkUnit (ar 7) [u 0; k 4; k 5]]).
 Proof. split; [discriminate|]. vm_compute. split; reflexivity. Qed.
+(* DelayN.ar([u0 (ar), u1 (kr), 0], 2, 3): the audio unit is kept, the control one gets a K2A, the
+   zero a DC; then three DelayN units, each on ITS converted element *)
+Example audio_input_example :
+  let pre := [mkUnit (ar 1) [k 100; k 0]; mkUnit (kr 1) [k 101; k 0]] in
+  observe (audio_in_ctor (ar 9) (ar 10) (ar 11) [] (Lst [u 0; u 1; k 0]) [k 2; k 3]) pre =
+    ORes (Lst [u 4; u 5; u 6])
+         (pre ++ [mkUnit (ar 10) [u 1]; mkUnit (ar 9) [k 0];
+                  mkUnit (ar 11) [u 0; k 2; k 3]; mkUnit (ar 11) [u 2; k 2; k 3]; mkUnit (ar 11) [u 3; k 2; k 3]]).
+Proof. vm_compute. reflexivity. Qed.
 Example out_example_count : nlists (Lst [Lst [u 0; k 0]; Lst [k 0; u 1; k 7]]) = 3.
 Proof. reflexivity. Qed.
 
@@ -374,6 +406,7 @@ Print Assumptions list_binop_shape_cases.
 Print Assumptions channel_list_madd_law.
 Print Assumptions channel_list_operator_law.
 Print Assumptions out_splice_and_silence_all_classes.
+Print Assumptions audio_input_constructor_law.
 Print Assumptions list_binop_wrap_law.
 Print Assumptions channel_list_methods_law.
 Print Assumptions out_splice_and_silence.
